@@ -55,6 +55,10 @@ impl Probe {
 }
 
 thread_local! {
+    static PH: RefCell<[u128; 7]> = const { RefCell::new([0; 7]) };
+}
+
+thread_local! {
     /// buffers dropped inside compio: (the block itself, kept alive; its bytes at drop time)
     static QUARANTINE: RefCell<Vec<(Vec<u8>, Vec<u8>)>> = const { RefCell::new(Vec::new()) };
 }
@@ -638,7 +642,7 @@ impl<'a> World<'a> {
             self.ops[i].routes.push("drop");
             self.ops[i].dropped_unfinished = true;
             self.reached.push("cancel_drop");
-        } else {
+        } else if self.history.last().map(|s| s.as_str()) != Some("teardown-drop-all") {
             self.reached.push("drop_after_completion");
         }
         self.transitions += 1;
@@ -1048,7 +1052,9 @@ pub fn execute(sc: &Scenario, seq: &[Step], cfg: &Config) -> ExecResult {
             }
         })
         .collect();
+    let t_a = std::time::Instant::now();
     let rt = build_runtime(cfg.driver);
+    let t_b = std::time::Instant::now();
     let ntok = sc.ops.iter().map(|o| o.tok + 1).max().unwrap_or(0);
     let (mut vios, outcome, transitions, reached, history, fds) = rt.enter(|| {
         let ops = sc
@@ -1106,6 +1112,7 @@ pub fn execute(sc: &Scenario, seq: &[Step], cfg: &Config) -> ExecResult {
             }
         }
         // final verdict: settle, then a grace period during which nothing else may happen
+        let t_c = std::time::Instant::now();
         w.history.push("final-settle".into());
         w.settle();
         w.judge("final settle");
@@ -1114,7 +1121,9 @@ pub fn execute(sc: &Scenario, seq: &[Step], cfg: &Config) -> ExecResult {
         }
         w.settle();
         w.judge("after grace");
+        let t_d = std::time::Instant::now();
         w.epilogue();
+        let t_e = std::time::Instant::now();
         let outcome = w.outcome();
         // teardown: dropping what is left is the drop route for every remaining operation
         w.history.push("teardown-drop-all".into());
@@ -1128,9 +1137,13 @@ pub fn execute(sc: &Scenario, seq: &[Step], cfg: &Config) -> ExecResult {
         w.tokens.clear();
         w.conservation();
         let fds = std::mem::take(&mut w.fds);
+        PH.with(|p| { let mut p = p.borrow_mut(); p[1] += (t_c - t_b).as_micros(); p[2] += (t_d - t_c).as_micros(); p[3] += (t_e - t_d).as_micros(); p[4] += t_e.elapsed().as_micros(); });
         (w.vios, outcome, w.transitions, w.reached, w.history, fds)
     });
+    let t_f = std::time::Instant::now();
     drop(rt);
+    PH.with(|p| { let mut p = p.borrow_mut(); p[0] += (t_b - t_a).as_micros(); p[5] += t_f.elapsed().as_micros(); p[6] += 1;
+        if p[6] % 200 == 0 && std::env::var("C05_PHASES").is_ok() { eprintln!("{} build {} steps {} final {} epilogue {} teardown {} droprt {}", driver_name(cfg.driver), p[0]/p[6], p[1]/p[6], p[2]/p[6], p[3]/p[6], p[4]/p[6], p[5]/p[6]); } });
     // after the runtime is gone: nobody may have written into a buffer after compio released it
     let q = QUARANTINE.with(|q| std::mem::take(&mut *q.borrow_mut()));
     for (block, snap) in q {
@@ -1183,4 +1196,22 @@ pub fn token_canary(driver: DriverType) -> Option<String> {
             driver_name(driver)
         ))
     }
+}
+
+pub fn bench_runtime(driver: DriverType) {
+    use std::time::Instant;
+    thread_local! { static ACC: Cell<(u128,u128,u128,u32)> = const { Cell::new((0,0,0,0)) }; }
+    let t0 = Instant::now();
+    let rt = build_runtime(driver);
+    let t1 = Instant::now();
+    rt.enter(|| {
+        rt.poll_with(Some(Duration::ZERO));
+    });
+    let t2 = Instant::now();
+    drop(rt);
+    let t3 = Instant::now();
+    let (a,b,c,n) = ACC.get();
+    let v = (a + (t1-t0).as_micros(), b + (t2-t1).as_micros(), c + (t3-t2).as_micros(), n+1);
+    ACC.set(v);
+    if v.3 % 100 == 0 { eprintln!("build {}us poll {}us drop {}us", v.0/v.3 as u128, v.1/v.3 as u128, v.2/v.3 as u128); }
 }
